@@ -62,7 +62,7 @@ def term_array(tag: str, args: str, ishape: tuple):
 
 
 def make_function(name: str, params: list[str], nout: int = 1, ishape: tuple = (), sig_defaults: dict | None = None,
-                  hook=None):
+                  hook=None, returns_none: bool = False):
     """A user function with signature ``name(*params)`` returning terms; logs every call.
 
     hook(name, kwargs) is called first (fault injection); ishape: the returned value is an ndarray of terms
@@ -78,6 +78,8 @@ def make_function(name: str, params: list[str], nout: int = 1, ishape: tuple = (
         def one(tag):
             return term_array(tag, args, ishape) if ishape else f"{tag}({args})"
 
+        if returns_none:
+            return None  # a "setup" function: called for its effect (the log entry), its output is None
         if nout == 1:
             return one(name)
         return tuple(one(f"{name}.{k}") for k in range(nout))
